@@ -20,6 +20,8 @@ claimed (the code would go on).
 Message calls (`sound_calls`, for the frame-stack machine Model.SevmCalls `runC`): CALL / CALLCODE with the literal
 value 0, DELEGATECALL, STATICCALL to literal targets whose code is known (or absent), nested to any depth, against
 `Spec.Evm.exec` with its nested calls; the storage maps of *all* modelled accounts describe the final world (`WRelM`).
+`sound_calls_create`: with CREATE followed; `sound_calls_hsto`: with SLOAD / SSTORE at mapping and dynamic-array
+locations followed (`SolidityStorage`; the cells written describe the slots from 2^64 on of the final world, `HRel`).
 
 Known finding kept out of the statement by the tag: the end state `jumpi` produces when a JUMPI with a *symbolic*
 condition has an invalid destination (`Tag.jumpiInvalidSym`) claims the whole input set although the EVM falls through
@@ -461,7 +463,7 @@ theorem sound_calls_create {s : Simp} (hs : SimpSound s) (o : Oracle) (cfg : Cfg
     of `ShaOK`, at every visited state whose path the valuation satisfies, for the location about to be accessed — are
     the two facts about Keccak-256 that halmos assumes too: the location is not a plain slot (≥ 2^64), and no other
     cell written on the path lies there (`HNoColl`: no collision between the hashed cells met).
-    Completeness (`C02`, `C10`) still assumes `cfg.hsto = false`. -/
+    The converse directions are `C02.complete_calls_hsto` and `C10.flagged_calls_hsto`. -/
 theorem sound_calls_hsto {s : Simp} (hs : SimpSound s) (o : Oracle) (ho : OracleSound o) (cfg : Cfg)
     (hs3 : cfg.sha3 = true)
     (env : Env) (codes : List (Nat × List Nat)) (this : Nat) (fuel : Nat) (p : Evm.Params) (w : Evm.World)
@@ -783,8 +785,8 @@ example :
     location `hLoc` of the cell (`keccak(key ‖ base)`, resp. `keccak(base) + index`), under every valuation satisfying the path for which no other cell
     written on the path lies at that location (`HNoColl`: an assumption on the hash, like `ShaOK`). PARTIAL: this is the
     storage-level core only (one load against the flat storage the chain describes); the statement along a run of
-    the frame-stack machine, against the reference's storage, is `sound_calls_hsto` above (soundness; the
-    completeness theorems `C02.complete_calls`, `C10.flagged_calls` still assume `cfg.hsto = false`). `mapCode` and
+    the frame-stack machine, against the reference's storage, is `sound_calls_hsto` above (and
+    `C02.complete_calls_hsto`, `C10.flagged_calls_hsto` for the converse). `mapCode` and
     `arrCode` below are instances against the reference with the real Keccak-256. -/
 theorem mapping_load_partial {I : Interp} {p : Evm.Params} {s : Simp} {o : Oracle} (hs : SimpSound s)
     (ho : OracleSound o) {path : List B} (hsat : Sat I path) {chain : List HCell} {acct kind base : Nat} {k : T}
@@ -804,6 +806,9 @@ example :
     (runC foldSimp exOracle { sha3 := true, hsto := true } exEnv [(0x1000, mapCode)] 0x1000 100).ends.map
         (fun ce => (ce.e.out, ce.e.tag, (ce.e.data.map (·.eval exI)).getLast?, ce.hsto.length)) =
       [(.halt (.success []), .normal, some 7, 1)] ∧
+    (runC foldSimp exOracle { sha3 := true, hsto := true } exEnv [(0x1000, mapCode)] 0x1000 100).ends.map
+        (fun ce => ce.hsto.map (fun c => [c.acct, c.kind, c.base, c.key.eval exI, c.val.eval exI])) =
+      [[[0x1000, 2, 5, 42, 7]]] ∧
     (Evm.exec { exPC with keccak := Keccak.keccak256 } 60 { exWC with code := [(0x1000, mapCode)] }
         { exF0 with code := mapCode }).map
       (fun r => (r.2.data.getLast?, Evm.lookupD r.1.storage (0x1000, hLoc { exPC with keccak := Keccak.keccak256 } 2 42 5))) =
